@@ -81,6 +81,12 @@ type In struct {
 	StoreOK  bool    `json:"store_ok"`
 	WriteOK  bool    `json:"write_ok"`
 	Selector string  `json:"selector"` // prim: 4-byte selector of storeCommitment from the contracts ABI
+	// what the registry holds for every address other than the bid's signer (nil: nothing, i.e.
+	// allowance 0); amt_ans is what it holds for the signer
+	PeerAmt *Ans `json:"peer_amt_ans,omitempty"`
+	// earlier attempts with the very same bid through the same component instances: store_ok of
+	// each (the observation is that of the last attempt, whose flag is store_ok)
+	Earlier []bool `json:"earlier,omitempty"`
 }
 type Effect struct {
 	T        string `json:"t"` // sign | store | write
@@ -95,9 +101,10 @@ type Obs struct {
 	Effects []Effect `json:"effects"`
 	Result  string   `json:"result"` // ok | nothing | InvalidArgument | FailedPrecondition | Internal | context | other
 	// the engine saw the bid with these fields equal to the bid's (when handed off)
-	EngineFieldsOK bool `json:"engine_fields_ok"`
-	Stuck          bool `json:"stuck"`
-	Panic          bool `json:"panic"`
+	EngineFieldsOK bool     `json:"engine_fields_ok"`
+	Stuck          bool     `json:"stuck"`
+	Panic          bool     `json:"panic"`
+	EarlierResults []string `json:"earlier_results,omitempty"`
 }
 
 func hx(b []byte) string { return hex.EncodeToString(b) }
@@ -225,6 +232,7 @@ func run(in In) (obs Obs) {
 	obs.EngineFieldsOK = true
 	var mu sync.Mutex
 	logE := func(e Effect) { mu.Lock(); obs.Effects = append(obs.Effects, e); mu.Unlock() }
+	storeOK := in.StoreOK
 	rng := vh.NewRng(uint64(len(in.Tag)) + 77)
 	ks := vh.NewKeySigner(rng)
 	ks.FailHash.Store(!in.SignOK)
@@ -237,6 +245,14 @@ func run(in In) (obs Obs) {
 			a = in.MinAns
 		case len(req.CallData) >= 4 && string(req.CallData[:4]) == string(bidABI.Methods["getAllowance"].ID):
 			a = in.AmtAns
+			// the registry is keyed by address: only the bid's signer holds amt_ans
+			if len(in.Prims) > 0 && len(req.CallData) >= 36 && hx(req.CallData[16:36]) != in.Prims[0].Addr {
+				if in.PeerAmt != nil {
+					a = *in.PeerAmt
+				} else {
+					a = Ans{Bytes: word(big.NewInt(0))}
+				}
+			}
 		default:
 			return nil, vh.ErrInjected
 		}
@@ -253,7 +269,10 @@ func run(in In) (obs Obs) {
 			e.To = hx(req.To.Bytes())
 		}
 		logE(e)
-		if !in.StoreOK {
+		mu.Lock()
+		ok := storeOK
+		mu.Unlock()
+		if !ok {
 			return common.Hash{}, vh.ErrInjected
 		}
 		return common.HexToHash("0x51"), nil
@@ -265,143 +284,159 @@ func run(in In) (obs Obs) {
 	pc := preconfirmation.New(nil, nil, sgn, us, svc, da, vh.Quiet())
 	handler := pc.Streams()[0].Handler
 
-	root, cancelRoot := context.WithCancel(context.Background())
-	defer cancelRoot()
-	ctx, cancel := context.WithCancel(root)
-	resC := make(chan error, 1)
-	go func() {
-		defer func() {
-			if r := recover(); r != nil {
-				mu.Lock()
-				obs.Panic = true
-				mu.Unlock()
-				resC <- errors.New("panic")
-			}
+	attempt := func() {
+		root, cancelRoot := context.WithCancel(context.Background())
+		defer cancelRoot()
+		ctx, cancel := context.WithCancel(root)
+		resC := make(chan error, 1)
+		go func() {
+			defer func() {
+				if r := recover(); r != nil {
+					mu.Lock()
+					obs.Panic = true
+					mu.Unlock()
+					resC <- errors.New("panic")
+				}
+			}()
+			resC <- handler(ctx, p2p.Peer{EthAddress: common.HexToAddress("0xb1dde7"), Type: p2p.PeerType(in.Role)}, &scriptStream{in, logE})
 		}()
-		resC <- handler(ctx, p2p.Peer{EthAddress: common.HexToAddress("0xb1dde7"), Type: p2p.PeerType(in.Role)}, &scriptStream{in, logE})
-	}()
-	var res error
-	done := false
-	waitRes := func(d time.Duration) bool {
-		if done {
-			return true
-		}
-		select {
-		case res = <-resC:
-			done = true
-		case <-time.After(d):
-		}
-		return done
-	}
-	rs := &recvSrv{ctx: root, bids: make(chan *providerapiv1.Bid, 4)}
-	recvStarted := false
-	var ds *decSrv
-	startDec := func() {
-		ds = &decSrv{ctx: root, in: make(chan *providerapiv1.BidResponse), entered: make(chan struct{}, 1), ended: make(chan struct{})}
-		d := ds
-		go func() { defer close(d.ended); _ = svc.SendProcessedBids(d) }()
-		<-d.entered
-	}
-	handed := false
-	for _, ev := range in.Schedule {
-		if done {
-			break
-		}
-		switch ev.T {
-		case "handoff":
-			if !recvStarted {
-				recvStarted = true
-				go func() { _ = svc.ReceiveBids(&providerapiv1.EmptyMessage{}, rs) }()
-			}
-			if handed {
-				continue
+		var res error
+		done := false
+		waitRes := func(d time.Duration) bool {
+			if done {
+				return true
 			}
 			select {
-			case b := <-rs.bids:
-				handed = true
-				want := fromJ(in.Bid)
-				if strings.Join(b.TxHashes, ",") != want.TxHash || b.BidAmount != want.BidAmount || b.BlockNumber != want.BlockNumber ||
-					string(b.BidDigest) != string(want.Digest) || b.DecayStartTimestamp != want.DecayStartTimestamp || b.DecayEndTimestamp != want.DecayEndTimestamp {
-					obs.EngineFieldsOK = false
-				}
 			case res = <-resC:
 				done = true
-			case <-time.After(2 * time.Second):
-				obs.Stuck = true
+			case <-time.After(d):
 			}
-		case "decision":
-			if ds == nil {
-				startDec()
+			return done
+		}
+		rs := &recvSrv{ctx: root, bids: make(chan *providerapiv1.Bid, 4)}
+		recvStarted := false
+		var ds *decSrv
+		startDec := func() {
+			ds = &decSrv{ctx: root, in: make(chan *providerapiv1.BidResponse), entered: make(chan struct{}, 1), ended: make(chan struct{})}
+			d := ds
+			go func() { defer close(d.ended); _ = svc.SendProcessedBids(d) }()
+			<-d.entered
+		}
+		handed := false
+		for _, ev := range in.Schedule {
+			if done {
+				break
 			}
-			dg := unhex(in.Bid.Digest)
-			if !ev.Mine {
-				dg = []byte("some-other-digest")
-			}
-			select {
-			case ds.in <- &providerapiv1.BidResponse{BidDigest: dg, Status: providerapiv1.BidResponse_Status(ev.Status)}:
-			case <-time.After(2 * time.Second):
-				obs.Stuck = true
-				continue
-			}
-			select {
-			case <-ds.entered:
-			case <-ds.ended:
-				startDec()
-			case <-time.After(2 * time.Second):
-				obs.Stuck = true
-			}
-			if ev.Mine && (ev.Status == 1 || ev.Status == 2) && handed {
+			switch ev.T {
+			case "handoff":
+				if !recvStarted {
+					recvStarted = true
+					go func() { _ = svc.ReceiveBids(&providerapiv1.EmptyMessage{}, rs) }()
+				}
+				if handed {
+					continue
+				}
+				select {
+				case b := <-rs.bids:
+					handed = true
+					want := fromJ(in.Bid)
+					if strings.Join(b.TxHashes, ",") != want.TxHash || b.BidAmount != want.BidAmount || b.BlockNumber != want.BlockNumber ||
+						string(b.BidDigest) != string(want.Digest) || b.DecayStartTimestamp != want.DecayStartTimestamp || b.DecayEndTimestamp != want.DecayEndTimestamp {
+						obs.EngineFieldsOK = false
+					}
+				case res = <-resC:
+					done = true
+				case <-time.After(2 * time.Second):
+					obs.Stuck = true
+				}
+			case "decision":
+				if ds == nil {
+					startDec()
+				}
+				dg := unhex(in.Bid.Digest)
+				if !ev.Mine {
+					dg = []byte("some-other-digest")
+				}
+				select {
+				case ds.in <- &providerapiv1.BidResponse{BidDigest: dg, Status: providerapiv1.BidResponse_Status(ev.Status)}:
+				case <-time.After(2 * time.Second):
+					obs.Stuck = true
+					continue
+				}
+				select {
+				case <-ds.entered:
+				case <-ds.ended:
+					startDec()
+				case <-time.After(2 * time.Second):
+					obs.Stuck = true
+				}
+				if ev.Mine && (ev.Status == 1 || ev.Status == 2) && handed {
+					waitRes(2 * time.Second)
+				}
+			case "real-deadline":
+				// let the handler's own deadline (context.WithTimeout in handleBid) expire in real time
+				waitRes(5700 * time.Millisecond)
+			case "deadline", "cancel":
+				cancel()
 				waitRes(2 * time.Second)
 			}
-		case "real-deadline":
-			// let the handler's own deadline (context.WithTimeout in handleBid) expire in real time
-			waitRes(5700 * time.Millisecond)
-		case "deadline", "cancel":
+		}
+		if !waitRes(30 * time.Millisecond) {
+			// silence: let the deadline fire (by cancelling the context the deadline derives from)
 			cancel()
-			waitRes(2 * time.Second)
+			if !waitRes(3 * time.Second) {
+				obs.Stuck = true
+			}
 		}
-	}
-	if !waitRes(30 * time.Millisecond) {
-		// silence: let the deadline fire (by cancelling the context the deadline derives from)
 		cancel()
-		if !waitRes(3 * time.Second) {
-			obs.Stuck = true
+		mu.Lock()
+		defer mu.Unlock()
+		wrote := false
+		for _, e := range obs.Effects {
+			if e.T == "write" {
+				wrote = true
+			}
 		}
-	}
-	cancel()
-	mu.Lock()
-	defer mu.Unlock()
-	wrote := false
-	for _, e := range obs.Effects {
-		if e.T == "write" {
-			wrote = true
-		}
-	}
-	switch {
-	case obs.Panic:
-		obs.Result = "panic"
-	case res == nil && wrote:
-		obs.Result = "ok"
-	case res == nil:
-		obs.Result = "nothing"
-	case errors.Is(res, context.Canceled) || errors.Is(res, context.DeadlineExceeded):
-		obs.Result = "context"
-	default:
-		if st, ok := status.FromError(res); ok {
-			switch st.Code() {
-			case codes.InvalidArgument:
-				obs.Result = "InvalidArgument"
-			case codes.FailedPrecondition:
-				obs.Result = "FailedPrecondition"
-			case codes.Internal:
-				obs.Result = "Internal"
-			default:
+		switch {
+		case obs.Panic:
+			obs.Result = "panic"
+		case res == nil && wrote:
+			obs.Result = "ok"
+		case res == nil:
+			obs.Result = "nothing"
+		case errors.Is(res, context.Canceled) || errors.Is(res, context.DeadlineExceeded):
+			obs.Result = "context"
+		default:
+			if st, ok := status.FromError(res); ok {
+				switch st.Code() {
+				case codes.InvalidArgument:
+					obs.Result = "InvalidArgument"
+				case codes.FailedPrecondition:
+					obs.Result = "FailedPrecondition"
+				case codes.Internal:
+					obs.Result = "Internal"
+				default:
+					obs.Result = "other"
+				}
+			} else {
 				obs.Result = "other"
 			}
-		} else {
-			obs.Result = "other"
 		}
 	}
+	for _, ok := range in.Earlier {
+		mu.Lock()
+		storeOK = ok
+		mu.Unlock()
+		attempt()
+		mu.Lock()
+		obs.EarlierResults = append(obs.EarlierResults, obs.Result)
+		obs.Effects = []Effect{}
+		mu.Unlock()
+	}
+	mu.Lock()
+	storeOK = in.StoreOK
+	mu.Unlock()
+	attempt()
 	return obs
 }
 
@@ -565,7 +600,21 @@ func main() {
 	allowances := map[string][2]Ans{"yes": yes, "equal": {{Bytes: word(big.NewInt(10))}, {Bytes: word(big.NewInt(10))}},
 		"no": {{Bytes: word(big.NewInt(10))}, {Bytes: word(big.NewInt(9))}}, "call-error": {{Bytes: word(big.NewInt(10))}, {Err: true}},
 		"min-error": {{Err: true}, {Bytes: word(big.NewInt(20))}}, "malformed": {{Bytes: word(big.NewInt(10))}, {Bytes: word(big.NewInt(20))[:62]}}}
-	goodHash := func() string { return hx(rng.Bytes(32)) }
+	goodHash := func() string {
+		h := hx(rng.Bytes(32))
+		if rng.Chance(25) { // the format rule admits both cases: some digits in upper case
+			b := []byte(h)
+			for i := range b {
+				if b[i] >= 'a' && b[i] <= 'f' && rng.Chance(50) {
+					b[i] -= 32
+				}
+			}
+			h = string(b)
+		}
+		return h
+	}
+	// decimal spellings with leading zeros (value-preserving in base 10; octal / invalid in base 0)
+	spelled := []string{"08", "010", "0900", "019", "00012", "0100", "07", "0018446744073709551615"}
 	mkBid := func(class string) *preconfpb.Bid {
 		tx := goodHash()
 		if rng.Chance(30) {
@@ -587,6 +636,16 @@ func main() {
 			tx = "zz" + tx[2:]
 		case "fmt-hash-empty-entry":
 			tx = tx + ","
+		case "amount-leading-zero":
+			amt = spelled[rng.Intn(len(spelled))]
+		case "alias-octal":
+			amt = []string{"64", "8", "100", "4096", "511"}[rng.Intn(5)]
+		case "alias-hex":
+			amt = "64"
+		case "alias-underscore":
+			amt = "1000"
+		case "alias-binary":
+			amt = "5"
 		case "fmt-amount-zero":
 			amt = "0"
 		case "fmt-amount-2^64":
@@ -600,9 +659,29 @@ func main() {
 		}
 		b, err := bidder.ConstructSignedBid(tx, amt, blk, st, en)
 		if err != nil {
-			panic(err)
+			// the node's own signing function refuses a spelling the rules admit: sign the canonical
+			// spelling of the same value and present the spelled one (same digest under the rules)
+			v, ok := new(big.Int).SetString(amt, 10)
+			if !ok {
+				panic(err)
+			}
+			b, err = bidder.ConstructSignedBid(tx, v.String(), blk, st, en)
+			if err != nil {
+				panic(err)
+			}
+			b.BidAmount = amt
 		}
 		switch class {
+		case "alias-octal":
+			// another spelling whose base-8 reading is the signed value, digest and signature kept
+			v, _ := new(big.Int).SetString(b.BidAmount, 10)
+			b.BidAmount = "0" + v.Text(8)
+		case "alias-hex":
+			b.BidAmount = "0x40"
+		case "alias-underscore":
+			b.BidAmount = "1_000"
+		case "alias-binary":
+			b.BidAmount = "0b101"
 		case "tamper-amount":
 			b.BidAmount = b.BidAmount + "0"
 		case "tamper-block":
@@ -639,6 +718,16 @@ func main() {
 		for i := 0; i < vh.Count(20, 300); i++ {
 			emit("store-fails", 2, true, mkBid("valid"), "yes", accept, true, false, true)
 			emit("write-fails", 2, true, mkBid("valid"), "yes", accept, true, true, false)
+			emit("accept-spelled-amount", 2, true, mkBid("amount-leading-zero"), "yes", accept, true, true, true)
+		}
+		// the very same bid again through the same instances, after attempts whose submission failed
+		// (and after ones that succeeded)
+		for i := 0; i < vh.Count(12, 200); i++ {
+			b := mkBid("valid")
+			earlier := [][]bool{{false}, {false, false}, {true}, {false, true}, {true, false}}[i%5]
+			in := In{Tag: "retry", Role: 2, ReadOK: true, Bid: toJ(b), MinAns: yes[0], AmtAns: yes[1], Schedule: accept,
+				SignOK: true, StoreOK: i%7 != 6, WriteOK: true, Selector: sel, Prims: []Prim{prim(b.Digest, b.Signature)}, Earlier: earlier}
+			out.Emit(in, run(in))
 		}
 		// several bids in flight at once through one contract client (real EvmClient underneath)
 		for i := 0; i < vh.Count(6, 60); i++ {
@@ -656,7 +745,7 @@ func main() {
 	}
 	// ---- C01: gate matrix (one gate failing at a time, and all pairs on a sample), engine behaviours
 	roles := []int{2, 1, 0, -1, 7}
-	bidClasses := []string{"valid", "tamper-amount", "tamper-block", "bad-digest", "bad-sig-short", "bad-sig-long", "bad-sig-s", "no-digest",
+	bidClasses := []string{"valid", "amount-leading-zero", "alias-octal", "alias-hex", "alias-underscore", "alias-binary", "tamper-amount", "tamper-block", "bad-digest", "bad-sig-short", "bad-sig-long", "bad-sig-s", "no-digest",
 		"fmt-hash", "fmt-hash-empty-entry", "fmt-amount-zero", "fmt-amount-2^64", "fmt-block", "fmt-start", "fmt-end"}
 	allows := []string{"yes", "equal", "no", "call-error", "min-error", "malformed"}
 	scheds := map[string][]Event{
@@ -720,6 +809,21 @@ func main() {
 	}
 	for _, a := range allows {
 		emit("allowance:"+a, 2, true, mkBid("valid"), a, accept, true, true, true)
+	}
+	// the registry is keyed by address: what it holds for the sending peer (or anybody else) is
+	// immaterial, the bid's signer is who must be funded
+	for k := 0; k < vh.Count(4, 40); k++ {
+		for _, kc := range []struct {
+			tag          string
+			signer, peer string
+		}{{"allowance-keyed:signer-no-peer-yes", "no", "yes"}, {"allowance-keyed:signer-yes-peer-no", "yes", "no"},
+			{"allowance-keyed:signer-error-peer-yes", "call-error", "yes"}, {"allowance-keyed:both-yes", "yes", "yes"}} {
+			b := mkBid("valid")
+			a, pa := allowances[kc.signer], allowances[kc.peer][1]
+			in := In{Tag: kc.tag, Role: 2, ReadOK: true, Bid: toJ(b), MinAns: a[0], AmtAns: a[1], PeerAmt: &pa, Schedule: accept,
+				SignOK: true, StoreOK: true, WriteOK: true, Selector: sel, Prims: []Prim{prim(b.Digest, b.Signature)}}
+			out.Emit(in, run(in))
+		}
 	}
 	for _, s := range snames {
 		for k := 0; k < vh.Count(2, 10); k++ {
